@@ -54,6 +54,8 @@ __CPROVER_assigns(__exc, v_find2_hit, g_init0, g_map_cell, self->state_, self->s
 __CPROVER_ensures(__exc == 0)                                                        /* total: no exception for any input */
 __CPROVER_ensures(__CPROVER_return_value <= data_size)                               /* never claims more than it was given */
 __CPROVER_ensures(self->state_ >= S_INIT && self->state_ <= S_FAIL && self->sp_request_ != 0)
+/* a request with a declared body length is complete only when the whole body was among the bytes given: the body is part of what is consumed */
+__CPROVER_ensures((__CPROVER_old(self->state_) != S_ALL && self->state_ == S_ALL && self->content_length_ != (size_t)-1) ==> self->content_length_ <= __CPROVER_return_value)
 __CPROVER_ensures((__CPROVER_old(self->state_) == S_INIT && self->state_ == S_FAIL) ==> v_find2_hit == 1)                                /* a start line is rejected only after its terminating CRLF has been seen */
 __CPROVER_ensures((__CPROVER_old(self->state_) == S_INIT && self->state_ == S_INIT) ==> __CPROVER_return_value == 0)       /* incomplete start line: nothing consumed, still waiting */
 ''',
